@@ -1,5 +1,6 @@
 from . import ref
 from .c01_replay import _cfg
+from .c12_replay import replay_pack          # the PDS packing obligation is shared with C12
 
 
 def replay_encode(msg, enc, hexbm, cfg):
